@@ -147,6 +147,29 @@ package slip
 //@   on-map-update vars keeps-users-own: $owner != obj ==> $was == nil
 //@   on-map-update funcs keeps-users-own: $owner != obj ==> $was == nil
 
+// unexport / remove: only entries that are this package's own definitions are
+// taken out of the using packages (a user's own definition of the same name, or
+// one it got from a third package, stays), and the flag is cleared on this
+// package's own object.
+//@ func slip.(*Package).Unexport
+//@   property C13
+//@   on-map-delete funcs only-this-packages-entry: $was != nil && $was.Pkg == obj
+//@   on-map-delete vars only-this-packages-entry: $was != nil && $was.Pkg == obj
+//@   on-store Export#1 own-function: fi == obj.funcs[name] && !now
+//@   on-store Export#2 own-variable: vv == obj.vars[name] && !now
+//@ func slip.(*Package).Remove
+//@   property C13
+//@   on-map-delete vars own-table-or-own-entry-of-a-user: $owner == obj || ($was != nil && $was.Pkg == obj)
+//@   on-map-delete vars removes-the-named-variable: $key == name
+
+// import: the imported name refers to the very object of the source package and
+// is recorded with its origin.
+//@ func slip.(*Package).Import
+//@   property C13
+//@   on-map-update vars same-object: $owner == obj && $key == name && $value == pkg.vars[name] && $value != nil
+//@   on-map-update funcs same-object: $owner == obj && $key == name && $value == pkg.funcs[name] && $value != nil
+//@   on-map-update Imports origin-recorded: $owner == obj && $key == name && $value != nil && $value.Pkg == pkg && $value.Name == name
+
 // use-package: the back edge (Users) is added exactly when the forward edge
 // (Uses) is: never for a package that is used already.
 //@ func slip.(*Package).Use
